@@ -317,9 +317,9 @@ func TestCliTmpl(t *testing.T) {
 	r := NewRng(Seed(), "clitmpl")
 	s := NewStream("clitmpl")
 	defer s.Close()
-	n := EnvInt("HX_N", 1500)
+	n := EnvInt("HX_N", 25000) // checksum corner cases (double carry) hit about one packet in 10^4
 	if Thorough() {
-		n = 40000
+		n = 400000
 	}
 	for i := 0; i < n; i++ {
 		mac := net.HardwareAddr(r.Bytes(Pick(r, 6, 6, 6, 1, 8, 16)))
